@@ -15,7 +15,7 @@ RULE = ('TCPCL: C01/C09 plan space with extra user calls (queue queries, idle qu
         'UDPCL: engine E6 runs with the same marshalling check and queue model. Non-trivial: at least one query answered while '
         'a transfer was queued, in progress or awaiting pop; distinct = distinct event-history digests.')
 COMPONENTS = tc.COMPONENTS
-PROBES = ('probe.query_during_transfer', 'probe.idle_true', 'probe.idle_false', 'probe.double_pop', 'wire.SESS_TERM', 'engine.tcpcl', 'engine.udpcl', 'engine.fullstack', 'engine.scripted',
+PROBES = ('probe.query_during_transfer', 'probe.idle_true', 'probe.idle_false', 'probe.double_pop', 'wire.SESS_TERM', 'engine.tcpcl', 'engine.udpcl', 'engine.fullstack', 'engine.fullstack_tcp', 'engine.scripted', 'fault.session_restart', 'probe.second_session',
           'probe.refuse_after_end', 'probe.refuse_in_progress', 'user.send_file', 'user.pop_file')
 ASSUMPTIONS = ['as C01', 'marshalling model agrees with dbus-python 1.3.2 on the argument shapes the agents produce (selftest fidelity)']
 CHUNK = 10
@@ -44,9 +44,33 @@ def _gen_scripted(ch):
                 terminate=ch.choice('sterm', (None, 'peer', 'user')))
 
 
+def _gen_fullstack_tcp(ch):
+    ''' E5f over TCPCL: bp agents with the real TcpclAdaptor in front of real TCPCL agents; the adaptor opens sessions on
+    demand, pops on the finished signal; a user of the TCPCL agent queries the contacts and may end a session in between. '''
+    cfg = {}
+    for side in ('A', 'B'):
+        cfg[side] = dict(node_id='dtn://%s/' % side.lower(), keepalive_time=ch.choice(side + '.ka', (0, 0, 1)), idle_time=0,
+                         segment_size_mru=ch.choice(side + '.mru', (10 * 1024**2, 64, 1000, 17)),
+                         segment_size_tx_initial=ch.choice(side + '.txi', (104857, 33, 512)), tls_enable=False,
+                         enable_test=['private_extensions'] if ch.coin(side + '.pext', 1, 6) else [])
+    sends = sorted(([ch.choice('t', (0, 0, 1000, 5000, 200000, 1000000)) + 1000 * ch.pick('tt', 300), ch.choice('len', (0, 1, 30, 150, 400, 1200, 5000)), ix + 1,
+                     ch.choice('src', ('A', 'A', 'B'))] for ix in range(1 + ch.pick('nsend', 8))), key=lambda item: item[0])
+    queries = sorted(([1000 * ch.pick('qt', 2500), ch.choice('qside', ('A', 'B')),
+                       ch.choice('qop', ('is_sess_idle', 'recv_bundle_get_queue', 'send_bundle_get_queue', 'get_session_state', 'get_session_parameters', 'get_connections'))]
+                      for _ in range(ch.pick('nq', 10))), key=lambda item: item[0])
+    restart = None
+    if ch.coin('restart', 1, 3):
+        restart = [1000 * ch.pick('rt', 1500), ch.choice('rside', ('A', 'B')), ch.choice('rhow', ('terminate', 'terminate', 'close'))]
+    return dict(scenario='full_stack_tcp', cfg=cfg, chunk_size=ch.choice('chunk', (10240, 10240, 64, 1000)),
+                net=dict(tcp_capacity=ch.choice('cap', (65536, 2048, 16384)), short_write_16=ch.choice('shortw', (0, 0, 4))),
+                bp_mtu=ch.choice('bpmtu', (None, None, 300)), sends=sends, queries=queries, restart=restart)
+
+
 def gen(ch, tier):
     if ch.coin('scripted', 1, 5):
         return _gen_scripted(ch)
+    if ch.coin('fullstack.tcp', 1, 7):
+        return _gen_fullstack_tcp(ch)
     if ch.coin('fullstack', 1, 6):
         sends = sorted(([ch.choice('t', (0, 0, 1000, 5000, 200000)) + 1000 * ch.pick('tt', 300), ch.choice('len', (1, 30, 150, 400, 1200)), ix + 1]
                         for ix in range(1 + ch.pick('nsend', 6))), key=lambda item: item[0])
@@ -83,6 +107,8 @@ def execute(plan, sched, verbose=False):
         return _execute_udpcl(plan, sched, verbose)
     if plan.get('scenario') == 'full_stack':
         return _execute_fullstack(plan, sched, verbose)
+    if plan.get('scenario') == 'full_stack_tcp':
+        return _execute_fullstack_tcp(plan, sched, verbose)
     if plan.get('scenario') == 'tcpcl_scripted':
         return _execute_scripted(plan, sched, verbose)
     return tcpcl_pair.run_plan(plan, sched, verbose)
@@ -146,6 +172,126 @@ def _execute_fullstack(plan, sched, verbose):
         if left:
             run.viols.append(('adaptor', 'not-popped', 'UDPCL agent at B still queues transfers %r: the BP adaptor did not pop them' % left))
         run.stats['probe.query_during_transfer'] = 1
+    finally:
+        bp_net.CURRENT = None
+    return run
+
+
+def _execute_fullstack_tcp(plan, sched, verbose):
+    ''' E5f over TCPCL (DESIGN 12.7): what the BP-side adaptor sees of the TCPCL agents. '''
+    from scenarios import full_stack, bp_net
+    from props import bp_common as bc
+    from bp.encoding import PrimaryBlock, CanonicalBlock
+    from bp.util import BundleContainer
+    har = full_stack.TcpFullStackHarness(plan, sched, verbose)
+    run = _URun()
+    run.har = har
+    run.wld = har.wld
+    run.plan = plan
+    run.viols = []
+    run.stats = {'engine.fullstack_tcp': 1}
+    wld = har.wld
+    restart = plan.get('restart')
+    answers = []
+    try:
+        def do_send(item):
+            (_when, plen, tag, src) = item
+            ctr = BundleContainer()
+            ctr.bundle.primary = PrimaryBlock(bundle_flags=0, destination='dtn://%s/app' % ('b' if src == 'A' else 'a'), crc_type=2)
+            ctr.bundle.blocks = [CanonicalBlock(type_code=1, block_num=1, crc_type=2, btsd=bc.body(tag, plen))]
+            har.send('bp' + src, ctr)
+
+        def open_contacts(side):
+            return [path for path in har.opened[side] if path not in har.closed[side]]
+
+        def do_query(item):
+            (_when, side, member) = item
+            if member == 'get_connections':
+                ret = har.user_call(side, full_stack.TCPCL_AGENT_PATH, member)
+                if not (isinstance(ret, tuple) and ret and ret[0] == 'error'):
+                    answers.append((wld.seq, side, None, member, sorted(str(path) for path in ret), sorted(open_contacts(side))))
+                return
+            for path in open_contacts(side):
+                ret = har.user_call(side, path, member)
+                answers.append((wld.seq, side, path, member, ret, None))
+
+        def do_restart(item):
+            (_when, side, how) = item
+            for path in open_contacts(side)[:1]:
+                run.stats['fault.session_restart'] = 1
+                if how == 'terminate':
+                    har.user_call(side, path, 'terminate', 3)
+                else:
+                    har.user_call(side, path, 'close')
+
+        for item in plan['sends']:
+            wld.at(item[0], do_send, item)
+        for item in plan['queries']:
+            wld.at(item[0], do_query, item)
+        if restart:
+            wld.at(restart[0], do_restart, restart)
+        har.run_until(8 * full_stack.SEC)
+        har.settle(window_us=3 * full_stack.SEC)
+        for evt in wld.hist:
+            if evt[3] == 'dbus-marshal-error':
+                run.viols.append(('dbus-type', 'fullstack-tcp-%s:%s' % (evt[4], evt[6]), '%s %s does not conform to signature %r: args %r (%s)' % (evt[4], evt[6], evt[7], evt[8], evt[9])))
+                return run
+            if evt[3] == 'escaped-exception':
+                if str(evt[2]).startswith('cl'):
+                    run.viols.append(('adaptor', 'tcp-escaped-%s@%s' % (evt[4], evt[5]), '%s escaped from %s in TCPCL agent node %s' % (evt[4], evt[5], evt[2])))
+                    return run
+                run.stats['probe.adaptor_exception'] = 1
+            if evt[3] == 'dbus-error' and evt[6] in ('recv_bundle_pop_data', 'send_bundle_data') and not restart:
+                run.viols.append(('adaptor', 'tcp-call-failed-%s' % evt[6], 'BP-side adaptor call %s failed: %s %s' % (evt[6], evt[7], evt[8])))
+                return run
+        for (seq, side, path, member, ret, want) in answers:
+            if member == 'get_connections' and ret != want:
+                run.viols.append(('connections', 'fullstack-tcp-mismatch', 'get_connections of %s listed %s, contacts announced and not closed are %s' % (side, ret, want)))
+                return run
+        # every transfer the agents announced as received was popped by the adaptor: the queues are empty, and the sessions are idle
+        for side in ('A', 'B'):
+            for path in open_contacts(side):
+                left = har.user_call(side, path, 'recv_bundle_get_queue')
+                if isinstance(left, tuple) and left and left[0] == 'error':
+                    continue
+                if list(left):
+                    run.viols.append(('adaptor', 'tcp-not-popped', 'TCPCL contact %s at %s still lists received transfers %r after the adaptor was signalled' % (path, side, [str(x) for x in left])))
+                    return run
+                pend = har.user_call(side, path, 'send_bundle_get_queue')
+                idle = har.user_call(side, path, 'is_sess_idle')
+                for _retry in range(6):
+                    # a keepalive may be on its way out at this very instant; the indication has to become true, not be true at every instant
+                    if isinstance(idle, tuple) or idle or har.hang or wld.capped:
+                        break
+                    har.run_until(wld.now + 130000)
+                    idle = har.user_call(side, path, 'is_sess_idle')
+                state = har.user_call(side, path, 'get_session_state')
+                if state == 'established' and not (isinstance(pend, tuple) and pend and pend[0] == 'error') and not list(pend) and not (isinstance(idle, tuple) or idle) and not har.hang and not wld.capped:
+                    run.viols.append(('idle', 'fullstack-tcp-never-idle', 'contact %s at %s is established with empty queues after everything drained, but is_sess_idle says %r' % (path, side, idle)))
+                    return run
+                if not isinstance(idle, tuple) and idle:
+                    run.stats['probe.idle_true'] = 1
+        sent = {}
+        for (_when, plen, tag, src) in plan['sends']:
+            sent[(src, bc.body(tag, plen))] = sent.get((src, bc.body(tag, plen)), 0) + 1
+        for (src, dst) in (('A', 'bpB'), ('B', 'bpA')):
+            got = {}
+            for rec in har.delivered[dst]:
+                if (src, rec['payload']) not in sent:
+                    run.viols.append(('end-to-end', 'tcp-foreign-payload', 'the application at %s was handed %d octets nobody sent' % (dst, len(rec['payload']))))
+                    return run
+                got[rec['payload']] = got.get(rec['payload'], 0) + 1
+            for ((ssrc, body), count) in sent.items():
+                if ssrc != src:
+                    continue
+                have = got.get(body, 0)
+                if have > count or (have < count and not restart and not har.hang and not wld.capped):
+                    run.viols.append(('end-to-end', 'tcp-delivered-%d-of-%d' % (have, count), 'a %d-octet bundle sourced at %s reached the application at %s %d times (sent %d)' % (len(body), src, dst, have, count)))
+                    return run
+        run.stats['probe.query_during_transfer'] = 1 if any(member in ('recv_bundle_get_queue', 'send_bundle_get_queue') and not isinstance(ret, tuple) and list(ret)
+                                                            for (_s, _side, _p, member, ret, _w) in answers) else 0
+        if len(har.opened['A']) > 1:
+            run.stats['probe.second_session'] = 1
     finally:
         bp_net.CURRENT = None
     return run
@@ -468,6 +614,9 @@ def describe(run):
             return dict(nontrivial=bool(run.stats.get('probe.query_during_transfer') or run.stats.get('probe.refuse_after_end')), key=run.wld.digest(),
                         sim_us=run.wld.now, steps=run.wld.steps, capped=run.wld.capped, counters=counters,
                         sample=dict(engine='scripted', role=run.plan['role'], peer_mru=run.plan['peer_mru'], ops=run.plan['ops'][:12], drain=run.plan['drain']))
+        if run.plan.get('scenario') == 'full_stack_tcp':
+            return dict(nontrivial=True, key=run.wld.digest(), sim_us=run.wld.now, steps=run.wld.steps, capped=run.wld.capped, counters=counters,
+                        sample=dict(engine='fullstack_tcp', sends=run.plan['sends'], queries=run.plan['queries'][:6], restart=run.plan['restart'], net=run.plan['net']))
         if run.plan.get('scenario') == 'full_stack':
             return dict(nontrivial=True, key=run.wld.digest(), sim_us=run.wld.now, steps=run.wld.steps, capped=run.wld.capped, counters=counters,
                         sample=dict(engine='fullstack', mtu=run.plan['mtu'], bp_mtu=run.plan['bp_mtu'], sends=run.plan['sends'], net=run.plan['net']))
